@@ -5,7 +5,9 @@ package props
 import (
 	"bytes"
 	"crypto/md5"
+	"crypto/sha256"
 	"encoding/base64"
+	"encoding/hex"
 	"encoding/json"
 	"fmt"
 	"mime/multipart"
@@ -33,6 +35,10 @@ type c08Case struct {
 	K            int           `json:"k,omitempty"`
 	Frag         s3x.Frag      `json:"frag,omitempty"`
 	FreshDir     bool          `json:"freshDir,omitempty"` // (prior absent) the key lies below "directories" that hold no other key
+	// PayloadHash (put / part with a digest fault or none): the request also carries the correct
+	// hex SHA-256 of its body in X-Amz-Content-Sha256, as a signing client sends it; a right payload
+	// hash does not make up for a wrong Content-MD5
+	PayloadHash bool `json:"payloadHash,omitempty"`
 }
 
 const c08Key = "dir/victim.bin"
@@ -315,6 +321,10 @@ func c08Build(cs c08Case, uploadID string, metaLimit int) (rq *s3x.Req, verdict 
 			verdict = either
 		}
 	}
+	if cs.PayloadHash && (cs.Kind == "put" || cs.Kind == "part") && (cs.Fault == "none" || strings.HasPrefix(cs.Fault, "md5-")) {
+		h := sha256.Sum256(rq.Body)
+		addH("X-Amz-Content-Sha256", hex.EncodeToString(h[:]))
+	}
 	return
 }
 
@@ -561,6 +571,9 @@ func c08Run(t *testing.T, c *evid.Collector) {
 								continue // the empty body only in the main configuration
 							}
 							all = append(all, c08Case{Backend: k, IntegrityOff: ioff, Prior: prior, Kind: kind, Fault: f, Body: b, K: 3})
+							if (kind == "put" || kind == "part") && (f == "none" || strings.HasPrefix(f, "md5-")) && prior != "upload" {
+								all = append(all, c08Case{Backend: k, IntegrityOff: ioff, Prior: prior, Kind: kind, Fault: f, Body: b, K: 3, PayloadHash: true})
+							}
 							if prior == "absent" && kind != "part" && bi == 0 && !ioff {
 								all = append(all, c08Case{Backend: k, Prior: prior, Kind: kind, Fault: f, Body: b, K: 3, FreshDir: true})
 							}
@@ -652,6 +665,7 @@ func c08Run(t *testing.T, c *evid.Collector) {
 			cs.Frag = genFrag(rt, len(cs.Body.bytes()))
 		}
 		cs.FreshDir = cs.Prior == "absent" && rapid.Bool().Draw(rt, "freshdir")
+		cs.PayloadHash = rapid.IntRange(0, 2).Draw(rt, "payloadhash") == 0
 		if one(cs, "random") {
 			rt.Fatalf("C08 violated")
 		}
